@@ -485,6 +485,7 @@ def main():
             # clause-level attribution: a contract clause may carry `// [Cxx,Cyy]`; a failure of a clause tagged for other
             # properties only is not a failure of this property
             tags = set()
+            aux_clause = False
             gen_lines = idx.src.splitlines()
             for sp in d.get("spans", []):
                 if sp.get("file_name", "").endswith(".rs") and 0 < sp.get("line_start", 0) <= len(gen_lines):
@@ -492,12 +493,17 @@ def main():
                         mt = re.search(r"//\s*\[(C[0-9]+(?:\s*,\s*C[0-9]+)*)\]", gen_lines[ln - 1]) if ln <= len(gen_lines) else None
                         if mt and sp.get("label") is not None or (mt and sp.get("is_primary") and "postcondition" in msg):
                             tags |= {x.strip() for x in mt.group(1).split(",")}
+                        # `// [aux]`: a clause that is STRONGER than any property needs (kept because other proofs lean on it): its
+                        # failure alone is not a violation of anything - see the verdict below
+                        ma = re.search(r"//\s*\[aux\]", gen_lines[ln - 1]) if ln <= len(gen_lines) else None
+                        if ma and (sp.get("label") is not None or (sp.get("is_primary") and "postcondition" in msg)):
+                            aux_clause = True
             if tags and pid not in tags and fq and not fq.startswith("~"):
                 run_fail.append({"fn": "~other-property:" + fq, "message": msg, "class": cls, "rendered": d.get("rendered", ""), "tags": sorted(tags)})
                 other_prop_fail.setdefault(fq, 0)
                 other_prop_fail[fq] += 1
                 continue
-            run_fail.append({"fn": fq, "message": msg, "class": cls, "rendered": d.get("rendered", "")})
+            run_fail.append({"fn": fq, "message": msg, "class": cls, "rendered": d.get("rendered", ""), "aux": aux_clause})
         for fq_o, n_o in other_prop_fail.items():
             mine = [f for f in run_fail if f["fn"] == fq_o]
             if not mine and fq_o in this_run and not this_run[fq_o]["success"]:
@@ -608,7 +614,23 @@ def main():
         if fq in unstable:
             undec.append((fq, "unstable across seeds"))
         elif "semantic" in classes:
-            violations.append({"obligation": fq, "backend": "verus", "messages": msgs})
+            sem = [f for f in msgs if f["class"] == "semantic"]
+            if sem and all(f.get("aux") for f in sem):
+                # only auxiliary clauses failed: clauses stronger than the property (proof structure other contracts lean on). The
+                # code may be perfectly right; it is a violation only with a failing input reproduced on the real code.
+                cex = None
+                try:
+                    import backends
+                    cex = backends.counterexample(pid, fq, bdir, seed)
+                except ImportError:
+                    pass
+                if cex and cex.get("reproduced"):
+                    violations.append({"obligation": fq, "backend": "verus", "messages": msgs, "input": cex,
+                                       "note": "only auxiliary clauses failed; kept because a failing input was reproduced on the real code"})
+                else:
+                    undec.append((fq, "only auxiliary clause(s) failed - stronger than the property requires, other proofs lean on them - and the native search reproduced no failing input: needs the proofs re-done against the weaker clause, not a violation"))
+            else:
+                violations.append({"obligation": fq, "backend": "verus", "messages": msgs})
         elif not msgs:
             undec.append((fq, "failed without an attributable diagnostic"))
         else:
